@@ -269,7 +269,11 @@ ReadMsg(b, opts) ==
                    [] OTHER      -> NoBody]
 
 (* every length field of an emitted message delimits exactly what follows, at every level *)
-AttrFlagsConsistent(b, r) ==      \* RFC 4271 4.3: extended length only when the value needs it
+(* CANONICAL use of the Extended Length bit (only when the value needs it).  RFC 4271 4.3 does not
+   require it - both header forms are well-formed for a short value, and the reader handles both -
+   so this is not part of WellFormedR; the trace spec demands it of the attributes for which the
+   shape did not ask for the extended form (C04_ExtFlag). *)
+AttrFlagsConsistent(b, r) ==
   r.body.t = "update" =>
     \A i \in 1..Len(r.body.attrs.els) :
       LET e == r.body.attrs.els[i] IN AttrExt(b, e) <=> (AttrVLen(b, e) > 255)
@@ -309,7 +313,6 @@ WellFormedR(b, r, opts) ==
   /\ r.hdr.ok
   /\ r.hdr.len = Len(b)
   /\ r.body.ok
-  /\ AttrFlagsConsistent(b, r)
   /\ PrefixBitsOk(b, r, opts)
   /\ NextHopLenOk(r)
 
